@@ -129,11 +129,11 @@ def build(scn):
         doc = sb.sign(doc, sb.NS_SAMLP, TAG[rtype], 'req1', key)
         if scn['sig'] == 'invalid':
             doc = doc.replace('genuine', 'edited!', 1)
-        elif scn['sig'] == 'wrapped':
+        elif scn['sig'] in ('wrapped', 'wrapped_prefix'):
             import re
             genuine_sig = re.search(r'<ds:Signature .*?</ds:Signature>', doc, re.S).group(0)
             inner_genuine = request_xml(rtype, 'req1', dest, ii, '')          # the signed content, signature-less
-            doc = request_xml(rtype, 'evil1', dest, ii, genuine_sig, marker='forged',
+            doc = request_xml(rtype, 'evil1' if scn['sig'] == 'wrapped' else 'req1-2', dest, ii, genuine_sig, marker='forged',
                               inner='<samlp:Extensions>%s</samlp:Extensions>' % inner_genuine)
         elif scn['sig'] == 'wrapped_ownref':
             import re
